@@ -113,8 +113,9 @@ class EvalNode(ConfigScalar(str)):
         eval_line = lines[-1].strip()
 
         try:
-            exec_code = compile(exec_lines, self._source_file, 'exec')
-            eval_code = compile(eval_line, self._source_file, 'eval')
+            code_filename = self._source_file if self._source_file is not None else '<!eval node>' # compile() requires a string
+            exec_code = compile(exec_lines, code_filename, 'exec')
+            eval_code = compile(eval_line, code_filename, 'eval')
             exec_code_patched, _ = EvalNode._patch_access_to_globals(exec_code)
             eval_code_patched, _ = EvalNode._patch_access_to_globals(eval_code)
             exec(exec_code_patched, gbls)
